@@ -38,6 +38,27 @@ def kinds_in(e):
     return out
 
 
+def byte_count_fn(facts, strat):
+    """The routine that computes the byte count a slice strategy hands to Core::finish: `<strategy>::byte_count`, or — when the
+    two copies were merged into one routine elsewhere — whatever searcher routine the finish argument is computed by (looked
+    up in the program as written)."""
+    GLUE_ = "grep_searcher::searcher::glue::"
+    legacy = facts.fns.get(GLUE_ + strat + "::byte_count")
+    if legacy is not None:
+        return legacy
+    raw = facts.raw
+    run_ = raw.fns.get(GLUE_ + strat + "::run")
+    if run_ is None:
+        return None
+    eb = ExprBuilder(run_)
+    for fin in run_.calls_to(CORE + "::finish"):
+        for x in walk(eb.operand(fin.args[1])):
+            if x.k == "call" and x[1].startswith("grep_searcher::searcher::") and x[1] in raw.fns and \
+                    not x[1].endswith(("::pos", "::binary_byte_offset", "::absolute_byte_offset")):
+                return raw.fns[x[1]]
+    return None
+
+
 def kind_calls(f, kind):
     """Calls of f to a Core routine that is handed SinkContextKind::<kind>."""
     eb = ExprBuilder(f)
@@ -508,12 +529,16 @@ def deliver_rest(ctx):
                   "binary data replaces it only when the search quits there", floor=2, kind="GUARD") as r:
         GLUE = "grep_searcher::searcher::glue::"
         for strat in ("SliceByLine", "MultiLine"):
-            bc = facts.fn(GLUE + strat + "::byte_count")
+            bc = byte_count_fn(facts, strat)
+            if bc is None:
+                r.bad("bytes|" + strat, "anchor-missing: the byte count %s::run hands to Core::finish is not computed by a searcher routine" % strat)
+                continue
             ebc = ExprBuilder(bc)
             bo = bc.calls_to(CORE + "::binary_byte_offset")
             # blocks that answer with (something derived from) the binary offset and not the cursor
             offs = [bb for bb, j, st in bc.stmts() if st["k"] == "assign" and st["place"]["l"] == 0 and not st["place"]["p"] and
-                    mentions_call(ebc.rvalue(st["rv"]), CORE + "::binary_byte_offset") and not mentions_call(ebc.rvalue(st["rv"]), CORE + "::pos")]
+                    mentions_call(ebc.rvalue(st["rv"]), CORE + "::binary_byte_offset") and not mentions_call(ebc.rvalue(st["rv"]), CORE + "::pos")
+                    and not mentions_field(ebc.rvalue(st["rv"]), CORE, "pos")]
             if not bo or not offs:
                 r.ok("bytes|" + strat, "byte_count never answers with the binary offset", fn=bc, nontrivial=False)
                 continue
